@@ -63,6 +63,8 @@ def ann(node, names, cfg, depth=None):
         for f in node["fields"]:
             a = ann(f["t"], names, cfg, depth)
             parts.append(f"Tuple[bool, {a}]" if f["has_default"] else a)
+        if len(parts) == 1:
+            return parts[0]  # no 1-tuples: CrossHair prints them without the trailing comma
         return "Tuple[" + ", ".join(parts) + "]" if parts else "None"
     raise AssertionError(k)
 
@@ -133,6 +135,8 @@ def build(node, names, v, cfg, depth=None):
         if not node["fields"]:
             return {}
         d = {}
+        if len(node["fields"]) == 1:
+            v = (v,)
         for f, x in zip(node["fields"], v):
             if f["has_default"]:
                 present, x = x
@@ -191,6 +195,8 @@ def sample(node, names, cfg, rng, depth=None, big=False):
         for f in node["fields"]:
             x = sample(f["t"], names, cfg, rng, depth, big)
             out.append((rng.random() < 0.6, x) if f["has_default"] else x)
+        if len(out) == 1:
+            return out[0]
         return tuple(out)
     raise AssertionError(k)
 
